@@ -24,7 +24,7 @@ def prepare_scratch(modules):
     injected = []
     for mod in modules:
         info = KS.MODULES[mod]
-        src = os.path.join(VERIF, 'kani', mod)
+        src = os.path.join(info.get('src_dir') or os.path.join(VERIF, 'kani'), mod)
         owner = os.path.join(d, info['owner'])
         if not os.path.exists(owner):
             raise FileNotFoundError(f'owner file {info["owner"]} of harness module {mod} not found')
@@ -32,6 +32,11 @@ def prepare_scratch(modules):
         shutil.copy(src, dst)
         with open(owner, 'a') as f:
             f.write(f'\n#[cfg(kani)]\n#[path = "{mod}"]\nmod {info["name"]};\n')
+        if info.get('prepend'):
+            # crate-level attribute the harness module needs (e.g. a larger macro recursion limit); cfg(kani) only
+            txt = open(owner).read()
+            open(owner, 'w').write(info['prepend'] + '\n' + txt)
+            injected.append(f'{info["owner"]}: first line {info["prepend"]}')
         injected.append(f'{info["owner"]} += mod {info["name"]} ({mod})')
     return d, injected
 
@@ -79,9 +84,28 @@ def parse_output(out, names):
 
 
 def run_harnesses(set_name, tier='quick', prop=None):
+    dyn_info = None
+    if set_name in getattr(KS, 'DYNAMIC', {}):
+        # harness module generated from the real sources of this very tree
+        gen = __import__(KS.DYNAMIC[set_name])
+        gen_dir = os.path.join(SCRATCH_ROOT, f'verif-gen-{os.getpid()}')
+        os.makedirs(gen_dir, exist_ok=True)
+        fn = f'verif_gen_{set_name.lower()}.rs'
+        try:
+            hlist, dyn_info = gen.generate(REPO, os.path.join(gen_dir, fn))
+        except Exception as e:
+            return {'evidence': {'set': set_name}, 'harness_results': [], 'error': f'harness generation failed: {e!r}', 'assumptions': []}
+        KS.MODULES[fn] = {'owner': 'crates/lib/src/lib.rs', 'name': fn[:-3], 'src_dir': gen_dir,
+                          'prepend': '#![cfg_attr(kani, recursion_limit = "1024")]'}
+        KS.SETS[set_name] = []
+        for (h, tgt) in hlist:
+            KS.HARNESSES[h] = {'module': fn, 'target': tgt, 'what': 'arguments handed to the protocol-level query function agree (all ports; dispatch harnesses: all entries/settings)', 'timeout': 900}
+            KS.SETS[set_name].append(h)
     hs = [h for h in KS.SETS[set_name] if tier == 'thorough' or KS.HARNESSES[h].get('tier', 'quick') == 'quick']
+    if os.environ.get('VERIF_KANI_ONLY'):  # development aid: restrict to matching harnesses
+        hs = [h for h in hs if re.search(os.environ['VERIF_KANI_ONLY'], h)]
     modules = sorted(set([KS.HARNESSES[h]['module'] for h in hs] + [m for h in hs for m in KS.HARNESSES[h].get('needs', [])]))
-    ev = {'set': set_name, 'harnesses': len(hs), 'injected': [], 'build_and_verify_wall_s': 0}
+    ev = {'set': set_name, 'harnesses': len(hs), 'injected': [], 'build_and_verify_wall_s': 0, 'generated_from_sources': dyn_info}
     out_res = []
     t0 = time.time()
     try:
@@ -98,19 +122,31 @@ def run_harnesses(set_name, tier='quick', prop=None):
         return {'evidence': ev, 'harness_results': [], 'error': f'scratch preparation failed: {e}', 'assumptions': []}
     ev['injected'] = inj
     try:
-        cmd = ['cargo', 'kani', '-p', 'gamedig', '-Z', 'stubbing', '-Z', 'function-contracts', '--output-format', 'terse',
-               '-j', str(min(8, max(1, len(hs))))]
-        for h in hs:
-            cmd += ['--harness', h]
         env = dict(os.environ, CARGO_NET_OFFLINE='true')
         tmo = max(KS.HARNESSES[h].get('timeout', 600) for h in hs) + 600
-        try:
-            p = subprocess.run(cmd, cwd=d, env=env, capture_output=True, text=True, timeout=tmo)
-            out = p.stdout + '\n' + p.stderr
-        except subprocess.TimeoutExpired as e:
-            out = (e.stdout or b'').decode(errors='replace') if isinstance(e.stdout, bytes) else (e.stdout or '')
-            out += '\nverif: cargo kani timed out'
-        ev['cmd'] = 'CARGO_NET_OFFLINE=true ' + ' '.join(cmd[:9]) + ' --harness <each of %d>' % len(hs)
+        # kani-compiler keeps one goto program per (harness, stub set) in memory: large generated sets go in batches
+        bsz = getattr(KS, 'BATCH', {}).get(set_name, len(hs))
+        out = ''
+        for b0 in range(0, len(hs), bsz):
+            batch = hs[b0:b0 + bsz]
+            cmd = ['cargo', 'kani', '-p', 'gamedig', '-Z', 'stubbing', '-Z', 'function-contracts', '--output-format', 'terse',
+                   '-j', str(min(14 if len(batch) > 16 else 8, max(1, len(batch))))]
+            for h in batch:
+                cmd += ['--harness', h]
+            # own process group, so that a time-out also takes the cbmc children down (they hold gigabytes each)
+            pr = subprocess.Popen(cmd, cwd=d, env=env, stdout=subprocess.PIPE, stderr=subprocess.STDOUT, text=True, start_new_session=True)
+            try:
+                so, _ = pr.communicate(timeout=tmo)
+                out += so + '\n'
+            except subprocess.TimeoutExpired:
+                import signal
+                try:
+                    os.killpg(pr.pid, signal.SIGKILL)
+                except ProcessLookupError:
+                    pass
+                so, _ = pr.communicate()
+                out += (so or '') + '\nverif: cargo kani timed out\n'
+        ev['cmd'] = 'CARGO_NET_OFFLINE=true ' + ' '.join(cmd[:9]) + ' --harness <each of %d, in batches of %d>' % (len(hs), bsz)
         parsed = parse_output(out, hs)
         compile_error = ('error: could not compile' in out) or ('error[E' in out and 'Checking harness' not in out)
         for h in hs:
@@ -138,7 +174,10 @@ def run_harnesses(set_name, tier='quick', prop=None):
             return {'evidence': ev, 'harness_results': out_res, 'error': 'the scratch crate did not compile under kani: ' + out[-1500:],
                     'assumptions': []}
     finally:
-        shutil.rmtree(d, ignore_errors=True)
+        if not os.environ.get('VERIF_KEEP_SCRATCH'):
+            shutil.rmtree(d, ignore_errors=True)
+        if dyn_info is not None:
+            shutil.rmtree(gen_dir, ignore_errors=True)
     ev['build_and_verify_wall_s'] = round(time.time() - t0, 1)
     ev['results'] = [{k: v for k, v in i.items() if k not in ('log_tail',)} for i in out_res]
     assumptions = ['kani stubs: GDErrorKind::context, From<GDErrorKind> for GDError, alloc::fmt::format (error text/backtrace dropped)',
